@@ -7,7 +7,12 @@ P("C35",
   technique="Coq model of sqliteWriter (tables, batch counter, location interning, flush with a map-iteration-order oracle) with an "
             "inductive invariant over operation histories; small-step interleaving model (Lib/Lts.v) of InsertData ∥ Flush before and "
             "after the fix; exact tie on SQLite contents read back with the datareader",
-  level_text="see Property.v",
+  level_text="c35_seq_exactly_once: for every set of table shapes, batch size, history of InsertData/Flush calls and EVERY map iteration "
+             "order per flush (oracle), then Close: unless a call panicked, each table's rows (location ids resolved as the reader does) are "
+             "exactly its inserted entries, in order, once, every non-ignored field unchanged, no buffer left. c35_location_bijection: ids "
+             "are 1..n in row order, strings distinct, every stored id is a key. c35_value_domain_refuted (uint64 >= 2^63, complex: known "
+             "findings). c35_concurrent_old_refuted: two witness schedules of the pre-fix InsertData||Flush (double BEGIN panic; silently "
+             "lost entry); c35_concurrent_fixed_3: exhaustive over all schedules of 3 inserters, batch 1..4, for the fixed locking.",
   level_note="partial: database/sql + SQLite value mapping assumed to be the identity on the storable domain (checked on every run by the "
              "read-back tie); one connection / one transaction flag assumed for the concurrent model.",
   assumptions=["database/sql + glebarez/go-sqlite store and return int64, uint64 < 2^63, bool, float64, float32 (as float64) and strings without NUL unchanged",
